@@ -17,7 +17,7 @@ import os
 from decimal import Decimal
 from fractions import Fraction
 
-from lib import common, recog
+from lib import common, recog, uxrec
 from lib.common import cps, uncps
 
 PROP = 'C05'
@@ -210,6 +210,9 @@ def correspond(ctx):
             ctx.report('correspondence', l.split('\t')[0], '%s: implementation %s, model %s' % (l, a, b),
                        failing_input={'op': l}, property_fails=False)
 
+    # (f) the extractor: recorded calls of NumberWithUnitExtractor.extract replayed through RTV.UnitExtract
+    extractor_level(ctx, cfgs)
+
     # ------------------------------------------------------------------ pipeline: every row through recognize_*
     jobs = []
     for (mt, cul, pc, exc, parser) in cfgs:
@@ -361,6 +364,83 @@ def correspond(ctx):
                            property_fails=True)
     if cjobs:
         ctx.sample({'query': cjobs[0][-1]})
+
+
+def extractor_level(ctx, cfgs):
+    """Unit level for RTV.Model.UnitExtract: the REAL `NumberWithUnitExtractor.extract` of every extractor/parser pair of
+    every registered model runs (in worker processes) with its matcher / number-extractor / regex inputs recorded; the
+    recorded inputs are replayed through the Lean model, which must return the same result list
+    (start, length, text, relative number start, type), the same `unit_is_prefix` flags and the same rewritten source;
+    every recorded `_select_candidates` call is replayed on its own."""
+    tasks = []
+    r = ctx.rng('ux-seeds')
+    n_seeded = 1500 if ctx.thorough else 160
+    for (rec_, mt, cul) in recog.all_pairs():
+        if rec_ != 'NumberWithUnit':
+            continue
+        m = recog.get_model(rec_, mt, cul)
+        for k, ep in enumerate(m.extractor_parser):
+            exc = ep.extractor.config
+            rows = rows_of(exc)
+            english_pair = k > 0
+            cjk = (cul in CJK) and not english_pair
+            for kind, unit, form in rows:
+                for nk, num, val in numerals(cul, ctx.thorough):
+                    sep = '' if cjk else ' '
+                    q = (num + sep + form) if kind == 'suffix' else (form + sep + num)
+                    tasks.append((mt, cul, k, 'row', q))
+            sforms = [f for (kd, u, f) in rows if kd == 'suffix']
+            pforms = [f for (kd, u, f) in rows if kd == 'prefix']
+            for q in uxrec.seeded_sentences(r, sforms, pforms, getattr(exc, 'connector_token', '') or '', cjk, n_seeded):
+                tasks.append((mt, cul, k, 'seeded', q))
+    # the negative witness of Props/C05 (`nwu_furthest_reach_counterexample`) is a statement about the function for an
+    # arbitrary matcher; the shipped matchers cannot produce it, so it is replayed through the model only (below).
+    chunks = [tasks[i::64] for i in range(64)]
+    with mp.Pool(min(16, os.cpu_count() or 4)) as pool_:
+        results = pool_.map(uxrec.run_chunk, chunks)
+    ops, metas = [], []
+    hist = {}
+    for res in results:
+        for (t, tops, stats, err) in res:
+            (mt, cul, k, fam, q) = t
+            if err is not None:
+                raise common.InfraError('recording NumberWithUnitExtractor.extract failed on %r (%s %s): %s' % (q, mt, cul, err))
+            ctx.count('NumberWithUnitExtractor.extract recorded (%s)' % fam)
+            for key in ('prefix', 'suffix', 'separate', 'comma', 'select_conflict', 'filtered', 'nonunit', 'half', 'cut',
+                        'bracket', 'raised'):
+                if stats.get(key):
+                    hist[key] = hist.get(key, 0) + 1
+            if not stats['wf']:
+                hist['not-wellformed'] = hist.get('not-wellformed', 0) + 1
+            if stats['n']:
+                ctx.nontriv(('ux', mt, cul, k, q))
+            if not stats['type_ok']:
+                ctx.report('correspondence', 'nwu-extract-type', '%s %s pair %d: %r: a result does not carry the configuration\'s '
+                           'extract_type' % (mt, cul, k, q), failing_input={'op': 'NumberWithUnitExtractor.extract',
+                                                                           'model_type': mt, 'culture': cul, 'pair': k, 'source': q})
+            for op in tops:
+                ops.append(op)
+                metas.append(t)
+    answers = common.driver([op[1] for op in ops])
+    ctx.count('RTV.UnitExtract replay (ux.extract / ux.select)', len(ops))
+    for op, t, a in zip(ops, metas, answers):
+        d = uxrec.compare(op, a)
+        if d is None:
+            continue
+        (mt, cul, k, fam, q) = t
+        what = {'extract': 'NumberWithUnitExtractor.extract', 'extract-pre': 'NumberWithUnitExtractor.extract (before '
+                'expand_half_suffix)', 'select': 'NumberWithUnitExtractor._select_candidates'}[op[0]]
+        ctx.report('correspondence', 'nwu-' + op[0], '%s %s pair %d: %s on %r: implementation %s, model %s' % (
+            mt, cul, k, what, q, uxrec.show(op[2]), uxrec.show(a)),
+            failing_input={'op': what, 'model_type': mt, 'culture': cul, 'pair': k, 'source': q, 'driver_line': op[1][:2000],
+                           'implementation': op[2], 'model': a}, property_fails=False)
+    ctx.extra['extractor_branches_exercised'] = hist
+    # witnesses of Props/C05 replayed through the compiled model (same definitions the theorems are about)
+    w = common.driver(['ux.maxsuffix\t53 32 120 40 121 41\t-\t1\t2:3:120 40 121;4:1:121',
+                       'ux.maxsuffix\t53 32 120 40 121 41\t-\t1\t4:1:121'])
+    if w != ['4', '5']:
+        ctx.report('correspondence', 'nwu-witness', 'furthest-reach witness: compiled model answers %r, theorem says [4, 5]' % (w,),
+                   failing_input={'op': 'ux.maxsuffix witness'})
 
 
 def pc_expected(cfgs, mt, cul, form):
